@@ -90,3 +90,89 @@ func (p NoTagProfile) GetName() string        { return p.Name }
 func (p NoTagProfile) GetClaims() psa.IClaims { return &noTagClaims{} }
 
 func extName(i int) string { return fmt.Sprintf("http://example.com/psa/ext/%d", i) }
+
+// ---- further extension types used to take the checks through the extension-profile paths ----
+
+// StrictExtClaims: profile-2 based, with a rule of its own: Extra must be present and not negative.
+type StrictExtClaims struct {
+	psa.P2Claims
+	Extra *int64 `cbor:"-75100,keyasint,omitempty" json:"ext-extra,omitempty"`
+}
+
+func (o *StrictExtClaims) Validate() error {
+	if err := psa.ValidateClaims(o); err != nil {
+		return err
+	}
+	if o.Extra == nil || *o.Extra < 0 {
+		return fmt.Errorf("%w: ext-extra must be present and not negative", psa.ErrWrongSyntax)
+	}
+	return nil
+}
+func (o StrictExtClaims) MarshalCBOR() ([]byte, error) {
+	return encoding.SerializeStructToCBOR(extEM, &o)
+}
+func (o *StrictExtClaims) UnmarshalCBOR(data []byte) error {
+	return encoding.PopulateStructFromCBOR(extDM, data, o)
+}
+func (o StrictExtClaims) MarshalJSON() ([]byte, error) { return encoding.SerializeStructToJSON(&o) }
+func (o *StrictExtClaims) UnmarshalJSON(data []byte) error {
+	return encoding.PopulateStructFromJSON(data, o)
+}
+
+type StrictExtProfile struct{ Name string }
+
+func (p StrictExtProfile) GetName() string { return p.Name }
+func (p StrictExtProfile) GetClaims() psa.IClaims {
+	ep := eat.Profile{}
+	if err := ep.Set(p.Name); err != nil {
+		panic(err)
+	}
+	return &StrictExtClaims{P2Claims: psa.P2Claims{Profile: &ep, SwComponents: psa.VerifNewSwComponents(nil), CanonicalProfile: p.Name}}
+}
+
+// NoVsiExtClaims: a profile that does not have the VSI claim and says so with the *base* sentinels
+// (ErrNotInProfile for the VSI, ErrMissingOptional for an absent certification reference).
+type NoVsiExtClaims struct {
+	psa.P2Claims
+}
+
+func (o *NoVsiExtClaims) GetVSI() (string, error) { return "", psa.ErrNotInProfile }
+func (o *NoVsiExtClaims) GetCertificationReference() (string, error) {
+	if o.CertificationReference == nil {
+		return "", fmt.Errorf("no certification reference here: %w", psa.ErrMissingOptional)
+	}
+	return o.P2Claims.GetCertificationReference()
+}
+func (o *NoVsiExtClaims) Validate() error { return psa.ValidateClaims(o) }
+
+// TagOrderExtClaims: profile-2 based, optional claims whose tags put omitempty first / leave keyasint out —
+// the encoding package reads the key with Atoi and must honour omitempty wherever it stands.
+type TagOrderExtClaims struct {
+	psa.P2Claims
+	A *int64  `cbor:"-75100,omitempty" json:"ext-a,omitempty"`
+	B *string `cbor:"-75101,omitempty,keyasint" json:"ext-b,omitempty"`
+	C *int64  `cbor:"-75102,keyasint,omitempty" json:"ext-c,omitempty"`
+}
+
+func (o *TagOrderExtClaims) Validate() error { return psa.ValidateClaims(o) }
+func (o TagOrderExtClaims) MarshalCBOR() ([]byte, error) {
+	return encoding.SerializeStructToCBOR(extEM, &o)
+}
+func (o *TagOrderExtClaims) UnmarshalCBOR(data []byte) error {
+	return encoding.PopulateStructFromCBOR(extDM, data, o)
+}
+func (o TagOrderExtClaims) MarshalJSON() ([]byte, error) { return encoding.SerializeStructToJSON(&o) }
+func (o *TagOrderExtClaims) UnmarshalJSON(data []byte) error {
+	return encoding.PopulateStructFromJSON(data, o)
+}
+
+// ClashExtClaims: re-declares a key of the base profile (2400, the VSI).
+type ClashExtClaims struct {
+	psa.P2Claims
+	MyVSI *string `cbor:"2400,keyasint,omitempty" json:"my-vsi,omitempty"`
+}
+
+func (o *ClashExtClaims) Validate() error { return psa.ValidateClaims(o) }
+func (o ClashExtClaims) MarshalCBOR() ([]byte, error) {
+	return encoding.SerializeStructToCBOR(extEM, &o)
+}
